@@ -8,7 +8,7 @@ from ..gbcases import (build_keys, build_mask, build_values, canon_result_series
                        gen_dataset, model_kernel_for_public, parse_labelled, values_match)
 
 PID = "C01"
-MODULES = ["GroupbyVerif.Props.C01", "GroupbyVerif.Props.C04", "GroupbyVerif.Props.C02"]
+MODULES = ["GroupbyVerif.Props.C01", "GroupbyVerif.Props.C04", "GroupbyVerif.Props.C02", "GroupbyVerif.LoopBridge.Reduce"]
 RULE = ("seeded random logical datasets (1-3 keys of int/float+NaN/str/bool/datetime+NaT/categorical-with-unused class, nulls anywhere, "
         "forced all-null groups, value dtype classes f64 f32 i64 i32 u8 bool M8[ns] m8[s], masks none/bool/slice/positions incl. "
         "all-false, negative bounds, repeats) x 8 reductions, plus exhaustive int/float keys for <= 5 rows in the thorough tier; "
